@@ -182,6 +182,38 @@ def rule_bracket_layout(rep: Report, tz) -> None:
 		r.check(ok, key, (TOKENIZER_PY, e.lineno), f'`{unparse(e)[:90]}` can execute while context.enclosure > 0 {why}: a line break inside brackets would then change the indentation state or emit layout tokens (layout inside brackets must be insignificant)', unparse(e)[:100])
 
 
+def rule_source_map(rep: Report, tk) -> None:
+	"""a column is the offset minus the start of *its own* line, i.e. one past the LAST line break before that offset. Begin and end columns are sibling
+	computations and must use the same primitive (backward search bounded by the offset itself)"""
+	r = rep.rule('C13/column-from-last-linebreak', 'Token.SourceMap.make computes begin and end column as offset - (position after the last line break before that offset): a backward search (rfind) whose upper bound is the offset', floor=2)
+	f = tk.func('Token.SourceMap.make')
+	assigns = {}
+	for n in walk_no_nested(f.node):
+		if isinstance(n, ast.Assign) and len(n.targets) == 1 and isinstance(n.targets[0], ast.Name):
+			assigns[n.targets[0].id] = n.value
+
+	def searches(e: ast.AST, depth: int = 0) -> list[ast.Call]:
+		"""string-search calls the value of e is derived from (through local names)"""
+		out = []
+		for x in ast.walk(e):
+			if isinstance(x, ast.Call) and isinstance(x.func, ast.Attribute) and x.func.attr in ('rfind', 'find', 'index', 'rindex'):
+				out.append(x)
+			if isinstance(x, ast.Name) and x.id in assigns and depth < 4 and x.id not in ('begin', 'end', 'source'):
+				out.extend(searches(assigns[x.id], depth + 1))
+		return out
+
+	for col, offset in (('begin_column', 'begin'), ('end_column', 'end')):
+		v = assigns.get(col)
+		if v is None or not (isinstance(v, ast.BinOp) and isinstance(v.op, ast.Sub) and unparse(v.left) == offset and isinstance(v.right, ast.Name)):
+			r.undecided(col, f.where, f'{col} is no longer `{offset} - <line start>`')
+			continue
+		ss = searches(assigns.get(v.right.id, v.right))
+		own = [c for c in ss if len(c.args) == 3 and unparse(c.args[2]) == offset]
+		ok = bool(own) and all(c.func.attr in ('rfind', 'rindex') and const_str(c.args[0]) == '\n' for c in own) and all(c.func.attr in ('rfind', 'rindex') for c in ss if len(c.args) == 3 and unparse(c.args[2]) == offset)
+		fwd = [unparse(c) for c in ss if c.func.attr in ('find', 'index')]
+		r.check(ok and not (col == 'end_column' and fwd), col, (TOKEN_PY, f.node.lineno), f'{col} is derived from {[unparse(c) for c in ss]}: the line start of offset `{offset}` must be found by a backward search for the last line break before `{offset}` (rfind(\'\\n\', lo, {offset})); a forward search finds the first line break inside a multi-line token, so the end column of a triple-quoted string or a blank-line break is measured from the wrong line', unparse(assigns.get(v.right.id, v.right))[:120])
+
+
 def run(rep: Report, tier: str) -> None:
 	idx = SourceIndex()
 	tk, tz = idx.mod(TOKEN_PY), idx.mod(TOKENIZER_PY)
@@ -272,6 +304,7 @@ def run(rep: Report, tier: str) -> None:
 	ru.check(reads <= {'string'}, 'parser-matches-by-string', ct.where, f'SyntaxParser._compare_token reads token.{sorted(reads)}; the grammar tokenizer shifts symbol offsets after "/", which is harmless only while terminals are matched by string')
 
 	rule_bracket_layout(rep, tz)
+	rule_source_map(rep, tk)
 
 	# domain order
 	ro = rep.rule('C13/domain-order', 'no comment/quote opener starts with a character consumed by an earlier character-set domain; inside one opener list no earlier opener is a proper prefix of a later one', floor=10)
